@@ -74,7 +74,9 @@ CLAIMED = {
              "detonation passes v+=vw, T+=Tn through; vpDerivNum is the numerator of d(v+^2)/dT- (quotient rule) and vanishes iff "
              "cs-^2 = v-^2 (the Jouguet velocity is the Chapman-Jouguet point); orderings v+<v- etc. are equivalent to EOS inequalities. "
              "Admissibility, classification, CJ point and fastestDeflag/slowestDeton under artificially tight phase ranges are monitored "
-             "on real matchings every run, incl. a bisection-located scan of the deflagration/hybrid transition vw = cs-(T-).",
+             "on real matchings every run, incl. a bisection-located scan of the deflagration/hybrid transition vw = cs-(T-). Bracket search of "
+             "findJouguetVelocity as a model (Model.Jouguet) with theorems (Props.C06J: the bracket handed to brentq always has a sign change, "
+             "secant only when all samples have one sign, termination) and exact correspondence with the real method on stub equations of state.",
         note="truth of the EOS inequalities and monotonicity of T+-(vw) below fastestDeflag are physics of the sampled EOS (monitored, not proved).",
         technique="Lean 4 proof over regenerated model + translator validation + real-run monitor", ref="4/C06"),
     "C15": dict(
@@ -187,7 +189,9 @@ CLAIMED = {
              "functions/streams (stubs injected from outside, final flags poisoned beforehand); real LTE end-to-end runs check the pressure "
              "sign change within 3*errTol, the window, that returned fields are those of a fresh evaluation at v, and bitwise repeatability "
              "after interleaved LTE/matching/pressure calls and poisoned mutable state; WallGoManager level: solveWall on one manager through "
-             "sequences of configuration changes, LTE calls, detonation searches and other benchmark points equals a fresh manager.",
+             "sequences of configuration changes, LTE calls, detonation searches and other benchmark points equals a fresh manager and leaves the configuration untouched. Scanning loop of "
+             "findWallVelocityDetonation as a model (Model.DetonScan) with theorems (Props.C01D: brackets are sign changes of consecutive probes, "
+             "step sizes, termination, completeness, runaway => p(vmax) < 0 was evaluated) and exact correspondence on scripted pressures.",
         note="brentq and the inner pressure iteration are oracles (convergence not proved): partial; out-of-equilibrium runs need collision "
              "files and are covered at the Boltzmann level (C12-C14), end-to-end runs are LTE.",
         technique="Lean 4 proof over decision model + scripted-stub correspondence + end-to-end history monitor", ref="4/C01"),
